@@ -521,3 +521,97 @@ Proof.
   exists [true; false; true], [true; false; false]. cbn. repeat split; try tauto.
   intros [H|[]]. discriminate.
 Qed.
+
+(* ------------------------------------------------------------------------------------------ *)
+(* the WebSocket and QUIC loops: their own tables, tied to the source the same way             *)
+
+Lemma ws_exits_match : ws_model_exits = ConnExits.ws_exits /\ ConnExits.ws_exits_complete = true.
+Proof. split; reflexivity. Qed.
+
+Lemma quic_exits_match : quic_model_exits = ConnExits.quic_exits /\ ConnExits.quic_exits_complete = true.
+Proof. split; reflexivity. Qed.
+
+(* every exit site of these one-function loops is itself dominated by the report *)
+Definition reported_site (s : site) : bool := site_closed s && (site_callee s =? 1).
+
+Lemma ws_source_exits_dominated : forallb reported_site ConnExits.ws_exits = true.
+Proof. destruct ws_exits_match as [<- _]. reflexivity. Qed.
+
+Lemma quic_source_exits_dominated : forallb reported_site ConnExits.quic_exits = true.
+Proof. destruct quic_exits_match as [<- _]. reflexivity. Qed.
+
+(* what "the model leaves through site i of table tbl" has to mean *)
+Definition site_ok (tbl : list site) (t : task) (e : cev) (i : nat) : Prop :=
+  (i < length tbl)%nat /\
+  site_closed (nth i tbl no_site) = true /\
+  site_fn (nth i tbl no_site) = branch_of e /\
+  (site_kind (nth i tbl no_site) = 0 -> snd (report_closed (alive t) (mgr_up t)) = false) /\
+  snd (cstep t e) = closed_part (alive t) (mgr_up t).
+
+Lemma ws_sites_sound t e :
+  gone t = None ->
+  match ws_site t e with
+  | Some i => gone (fst (cstep t e)) <> None /\ site_ok ConnExits.ws_exits t e i
+  | None => gone (fst (cstep t e)) = None
+  end.
+Proof.
+  intro Hg. destruct ws_exits_match as [<- _]. unfold ws_site, site_ok, cstep. rewrite Hg.
+  pose proof (report_closed_ok (alive t) (mgr_up t)) as Hok.
+  destruct e as [y|n|c|j|]; cbn [branch_of].
+  - destruct y as [[|]| |]; cbn [h_yamux]; unfold finish; rewrite ?closing_spec; cbn [fst snd gone]; try exact Hg;
+      rewrite Hok; destruct (all_alive (alive t) && mgr_up t); cbn; repeat split; try congruence; lia.
+  - destruct n; cbn [h_neg]; unfold finish; cbn [fst snd]; exact Hg.
+  - destruct c; cbn [h_cmd]; unfold finish; rewrite ?closing_spec; cbn [fst snd gone]; try exact Hg;
+      cbn; repeat split; try congruence; lia.
+  - reflexivity.
+  - reflexivity.
+Qed.
+
+Lemma quic_sites_sound t e :
+  gone t = None ->
+  match quic_site t e with
+  | Some i => gone (fst (cstep t e)) <> None /\ site_ok ConnExits.quic_exits t e i
+  | None => gone (fst (cstep t e)) = None
+  end.
+Proof.
+  intro Hg. destruct quic_exits_match as [<- _]. unfold quic_site, site_ok, cstep. rewrite Hg.
+  destruct e as [y|n|c|j|]; cbn [branch_of].
+  - destruct y as [[|]| |]; cbn [h_yamux]; unfold finish; rewrite ?closing_spec; cbn [fst snd gone]; try exact Hg;
+      cbn; repeat split; try congruence; lia.
+  - destruct n; cbn [h_neg]; unfold finish; cbn [fst snd]; exact Hg.
+  - destruct c; cbn [h_cmd]; unfold finish; rewrite ?closing_spec; cbn [fst snd gone]; try exact Hg;
+      cbn; repeat split; try congruence; lia.
+  - reflexivity.
+  - reflexivity.
+Qed.
+
+(* nothing is listed in vain *)
+Lemma ws_sites_covered i :
+  (i < length ConnExits.ws_exits)%nat -> exists t e, gone t = None /\ ws_site t e = Some i.
+Proof.
+  destruct ws_exits_match as [<- _]. intro Hi.
+  set (bad := mkTask [false] true None). set (good := mkTask [true] true None).
+  destruct i as [|[|[|[|[|[|[|[|i]]]]]]]].
+  - exists bad, (EYamux (YSub false)). split; reflexivity.
+  - exists good, (EYamux (YSub false)). split; reflexivity.
+  - exists bad, (EYamux YErr). split; reflexivity.
+  - exists good, (EYamux YErr). split; reflexivity.
+  - exists bad, (EYamux YEof). split; reflexivity.
+  - exists good, (EYamux YEof). split; reflexivity.
+  - exists good, (ECmd CForce). split; reflexivity.
+  - exists good, (ECmd CNone). split; reflexivity.
+  - cbn in Hi. lia.
+Qed.
+
+Lemma quic_sites_covered i :
+  (i < length ConnExits.quic_exits)%nat -> exists t e, gone t = None /\ quic_site t e = Some i.
+Proof.
+  destruct quic_exits_match as [<- _]. intro Hi.
+  set (good := mkTask [true] true None).
+  destruct i as [|[|[|[|i]]]].
+  - exists good, (EYamux (YSub false)). split; reflexivity.
+  - exists good, (EYamux YErr). split; reflexivity.
+  - exists good, (ECmd CNone). split; reflexivity.
+  - exists good, (ECmd CForce). split; reflexivity.
+  - cbn in Hi. lia.
+Qed.
